@@ -142,7 +142,7 @@ def main():
             continue
         d = dict(P[pid])
         if pid in HISTORY:
-            d["technique"] += "; plus single-thread histories over related inputs (state carried by values, threads or the process)"
+            d["technique"] += "; plus single-thread histories over related inputs (state carried by values, threads or the process)" if HISTORY[pid].startswith(WALK) else "; plus workloads that vary what a value, a thread or the process did before the query"
             d["text"] += " " + HISTORY[pid]
         checks.append({
             "property_id": pid,
